@@ -542,9 +542,13 @@ def run(index, rep, tier):
             raise AnalysisError("R09.15: line splitting `%s` in get_lines is not one of the modelled forms" % how)
         pr = index.function(DIO + "phylipreader.PhylipReader._read")
         g = cfg_of(pr)
+        lv = [norm(a.targets[0]) for a in walk_no_nested(pr.node) if isinstance(a, ast.Assign) and isinstance(a.value, ast.Call) and call_name(a.value) == "get_lines"]
+        if len(lv) != 1:
+            raise AnalysisError("R09.15: PhylipReader._read no longer obtains its lines from get_lines")
+        lenexpr = "len(%s)" % lv[0]
         nguard = 0
         for t in g.nodes:
-            if t.kind == "test" and isinstance(t.ast, ast.Compare) and len(t.ast.ops) == 1 and norm(t.ast.left) == "len(lines)" and isinstance(t.ast.comparators[0], ast.Constant) and isinstance(t.ast.comparators[0].value, int):
+            if t.kind == "test" and isinstance(t.ast, ast.Compare) and len(t.ast.ops) == 1 and norm(t.ast.left) == lenexpr and isinstance(t.ast.comparators[0], ast.Constant) and isinstance(t.ast.comparators[0].value, int):
                 c = t.ast.comparators[0].value
                 op = type(t.ast.ops[0]).__name__
                 holds = {"Eq": items == c, "NotEq": items != c, "Lt": items < c, "LtE": items <= c, "Gt": items > c, "GtE": items >= c}.get(op)
